@@ -240,6 +240,15 @@ def check_extract(ctx, ext: FuncInfo):
             elif c.key == want_guard.neg().key:
                 gv = not v
         apps = [e for e in p.events if e.kind == "list_append"]
+        # every run is looked at: the scan over the runs goes on after a run, whatever its length (no break / return)
+        for le in [e for e in p.events if e.kind == "loop_enter" and e.func is not None and e.func.qualname == ext.qualname]:
+            over = le.data["loop"].info.get("over")
+            if getattr(over, "role", None) != "runs" and getattr(getattr(over, "list_of", None), "role", None) != "runs":
+                continue  # some other loop of the extractor (a search inside one run may well stop early)
+            how = le.data["loop"].info.get("exit", "return")
+            if how not in ("fallthrough", "continue"):
+                ctx.violation(rule, "scan-complete", le.loc(), f"the scan over the runs ends ({how}) at a run " + ("that is long enough" if gv else "shorter than min_detection_interval") + ": every later run is dropped, however long", found=f"loop exit by {how}", expected="the loop goes on to the next run")
+                return
         if gv is None:
             ctx.violation(rule, "min-run-length", ext.loc(), "no branch tests run length >= min_detection_interval", found=[repr(c) for c, _ in p.facts], expected=repr(want_guard))
             return
@@ -255,6 +264,8 @@ def check_extract(ctx, ext: FuncInfo):
             got_skip = True
             ctx.check(len(apps) == 0, rule, "short-run", ext.loc(), "a run shorter than min_detection_interval reports nothing", found=f"{len(apps)} appends")
     ctx.check(got_append and got_skip, rule, "both-branches", ext.loc(), "the run-length guard has both outcomes", nontrivial=False)
+    if got_append and got_skip:
+        ctx.holds(rule, "scan-complete", ext.loc(), "the scan goes on to the next run after a short run and after a reported one (no break / return inside the loop over the runs)")
 
 
 def check_runs(ctx, finder: FuncInfo):
@@ -473,11 +484,9 @@ def _runs_transitions(ctx, finder, rets):
 
 def _name_summary(tag, nout=1):
     def h(ex, func, args, kwargs, so, node):
-        names = func.params
-        b = {}
-        for i, a in enumerate(args):
-            b[names[i]] = a
-        b.update(kwargs)
+        from .common import bind_call
+
+        b = bind_call(ex, func, args, kwargs)
         ex.emit("helper_call", node, helper=tag, bound=b)
         if tag == "extract":
             ex.list_counter += 1
